@@ -224,15 +224,26 @@ impl<'l, 'c, D: Dimension + ndarray::RemoveAxis> Fit<ArrayView2<'c, f64>, ArrayV
     }
 }
 
+/// Models with an odd id build their prediction *on top of* the buffer their own `default_target`
+/// hands out (filled with a model-specific base value), the way an accumulating predictor does;
+/// a buffer that comes from somewhere else (another model, a previous prediction) shows in the score.
+fn mock_base(id: usize) -> f64 {
+    if id % 2 == 1 { 1024.0 * (id as f64 + 1.0) } else { 0.0 }
+}
+
 impl<'a> PredictInplace<ArrayView2<'a, f64>, Array1<f64>> for MockModel {
     fn predict_inplace<'b>(&'b self, x: &'b ArrayView2<'a, f64>, y: &mut Array1<f64>) {
         for r in 0..x.nrows() {
             let row = (x[[r, 0]] as usize) / self.p;
-            y[r] = mock_pred(self.id, self.digest, row, 0);
+            if self.id % 2 == 1 {
+                y[r] = (y[r] - mock_base(self.id)) + mock_pred(self.id, self.digest, row, 0);
+            } else {
+                y[r] = mock_pred(self.id, self.digest, row, 0);
+            }
         }
     }
     fn default_target(&self, x: &ArrayView2<'a, f64>) -> Array1<f64> {
-        Array1::zeros(x.nrows())
+        Array1::from_elem(x.nrows(), mock_base(self.id))
     }
 }
 impl<'a> PredictInplace<ArrayView2<'a, f64>, Array2<f64>> for MockModel {
@@ -240,12 +251,16 @@ impl<'a> PredictInplace<ArrayView2<'a, f64>, Array2<f64>> for MockModel {
         for r in 0..x.nrows() {
             let row = (x[[r, 0]] as usize) / self.p;
             for c in 0..self.t {
-                y[[r, c]] = mock_pred(self.id, self.digest, row, c);
+                if self.id % 2 == 1 {
+                    y[[r, c]] = (y[[r, c]] - mock_base(self.id)) + mock_pred(self.id, self.digest, row, c);
+                } else {
+                    y[[r, c]] = mock_pred(self.id, self.digest, row, c);
+                }
             }
         }
     }
     fn default_target(&self, x: &ArrayView2<'a, f64>) -> Array2<f64> {
-        Array2::zeros((x.nrows(), self.t))
+        Array2::from_elem((x.nrows(), self.t), mock_base(self.id))
     }
 }
 
